@@ -39,6 +39,7 @@ func init() {
 			{ID: "C17-R14", Title: "function ids come from the compiler's counter", Floor: 1, Run: functionIDsFromTheCounter},
 			{ID: "C17-R15", Title: "stored numbers are taken at face value", Floor: 0, Run: storedNumbersAreTakenAtFaceValue},
 			{ID: "C17-R16", Title: "tables are found the way they are numbered", Floor: 1, Run: tablesAreFoundTheWayTheyAreNumbered},
+			{ID: "C17-R17", Title: "scalars of a loaded code object come from its own definition", Floor: 3, Run: loadedScalarsComeFromTheirOwnDefinition},
 		},
 	})
 }
